@@ -200,6 +200,7 @@ def install(ctx):
     import geometer.point as P
 
     core.wrap_function(P, "_join_meet_duality", post_jm)
+    jm.install_public(post_jm)
     core.wrap_function(P, "_divide_by_power_of_two", post_divide)
     core.wrap_method(P.LineTensor, "covariant_tensor", post_covcontra)
     core.wrap_method(P.LineTensor, "contravariant_tensor", post_covcontra)
